@@ -1,0 +1,115 @@
+//go:build verif
+
+// Contracts for govc (see /verif/DESIGN.md). Comment-only file.
+
+package stor
+
+//@ property C14
+
+// ---- Writer: little-endian fixed width integers ---------------------------
+//@ spec wAppended(w *Writer, k int) bool = len(w.buf) == old(len(w.buf)) + k && (ref(w.buf) == old(ref(w.buf)) || fresh(w.buf)) && forall j :: 0 <= j && j < old(len(w.buf)) ==> w.buf[j] == old(w.buf[j])
+//@ spec byteAt(n int, i int) int = (n >> (8 * i)) % 256
+
+//@ func (w *Writer) Put1(n) (r)
+//@   requires w != nil
+//@   modifies w.buf, elems(w.buf)
+//@   panics_if n < 0 || n >= 256
+//@   ensures! r == w && wAppended(w, 1)
+//@   ensures! bytes: w.buf[old(len(w.buf))] == n
+
+//@ func (w *Writer) Put2(n) (r)
+//@   requires w != nil
+//@   modifies w.buf, elems(w.buf)
+//@   panics_if n < 0 || n >= 65536
+//@   ensures! r == w && wAppended(w, 2)
+//@   ensures! bytes: w.buf[old(len(w.buf))] == byteAt(n, 0) && w.buf[old(len(w.buf)) + 1] == byteAt(n, 1)
+
+//@ func (w *Writer) Put3(n) (r)
+//@   requires w != nil
+//@   modifies w.buf, elems(w.buf)
+//@   panics_if n < 0 || n >= 16777216
+//@   ensures! r == w && wAppended(w, 3)
+//@   ensures! bytes: w.buf[old(len(w.buf))] == byteAt(n, 0) && w.buf[old(len(w.buf)) + 1] == byteAt(n, 1) && w.buf[old(len(w.buf)) + 2] == byteAt(n, 2)
+
+//@ func (w *Writer) Put4(n) (r)
+//@   requires w != nil
+//@   modifies w.buf, elems(w.buf)
+//@   panics_if n < 0 || n >= 4294967296
+//@   ensures! r == w && wAppended(w, 4)
+//@   ensures! bytes: w.buf[old(len(w.buf))] == byteAt(n, 0) && w.buf[old(len(w.buf)) + 1] == byteAt(n, 1) && w.buf[old(len(w.buf)) + 2] == byteAt(n, 2) && w.buf[old(len(w.buf)) + 3] == byteAt(n, 3)
+
+//@ func (w *Writer) Put5(n) (r)
+//@   requires w != nil
+//@   modifies w.buf, elems(w.buf)
+//@   panics_if n < 0 || n >= 1099511627776
+//@   ensures! r == w && wAppended(w, 5)
+//@   ensures! bytes: w.buf[old(len(w.buf))] == byteAt(n, 0) && w.buf[old(len(w.buf)) + 1] == byteAt(n, 1) && w.buf[old(len(w.buf)) + 2] == byteAt(n, 2) && w.buf[old(len(w.buf)) + 3] == byteAt(n, 3) && w.buf[old(len(w.buf)) + 4] == byteAt(n, 4)
+
+//@ func (w *Writer) PutStr(s) (r)
+//@   requires w != nil
+//@   modifies w.buf, elems(w.buf)
+//@   panics_if len(s) >= 65536
+//@   ensures! r == w && wAppended(w, 2 + len(s))
+//@   ensures! length: w.buf[old(len(w.buf))] == byteAt(len(s), 0) && w.buf[old(len(w.buf)) + 1] == byteAt(len(s), 1)
+//@   ensures! bytes: forall j :: 0 <= j && j < len(s) ==> w.buf[old(len(w.buf)) + 2 + j] == s[j]
+
+//@ func LenStr(s) (r)
+//@   ensures! r == 2 + len(s)
+
+//@ func (w *Writer) Len() (r)
+//@   requires w != nil
+//@   ensures! r == len(w.buf)
+
+// ---- Reader ------------------------------------------------------------------
+//@ spec rAdvanced(r *Reader, k int) bool = len(r.buf) == old(len(r.buf)) - k && forall j :: 0 <= j && j < len(r.buf) ==> r.buf[j] == old(r.buf[j + k])
+
+//@ func (r *Reader) Get1() (n)
+//@   requires r != nil && len(r.buf) >= 1
+//@   modifies r.buf
+//@   ensures! n == old(r.buf[0]) && rAdvanced(r, 1)
+//@ func (r *Reader) Get2() (n)
+//@   requires r != nil && len(r.buf) >= 2
+//@   modifies r.buf
+//@   ensures! n == old(r.buf[0]) + 256 * old(r.buf[1]) && rAdvanced(r, 2)
+//@ func (r *Reader) Get3() (n)
+//@   requires r != nil && len(r.buf) >= 3
+//@   modifies r.buf
+//@   ensures! n == old(r.buf[0]) + 256 * old(r.buf[1]) + 65536 * old(r.buf[2]) && rAdvanced(r, 3)
+//@ func (r *Reader) Get4() (n)
+//@   requires r != nil && len(r.buf) >= 4
+//@   modifies r.buf
+//@   ensures! n == old(r.buf[0]) + 256 * old(r.buf[1]) + 65536 * old(r.buf[2]) + 16777216 * old(r.buf[3]) && rAdvanced(r, 4)
+//@ func (r *Reader) Get5() (n)
+//@   requires r != nil && len(r.buf) >= 5
+//@   modifies r.buf
+//@   ensures! n == old(r.buf[0]) + 256 * old(r.buf[1]) + 65536 * old(r.buf[2]) + 16777216 * old(r.buf[3]) + 4294967296 * old(r.buf[4]) && rAdvanced(r, 5)
+
+//@ func (r *Reader) GetStr() (s)
+//@   requires r != nil && len(r.buf) >= 2 && len(r.buf) >= 2 + r.buf[0] + 256 * r.buf[1]
+//@   modifies r.buf
+//@   ensures! len(s) == old(r.buf[0]) + 256 * old(r.buf[1]) && rAdvanced(r, 2 + len(s))
+//@   ensures! bytes: forall j :: 0 <= j && j < len(s) ==> s[j] == old(r.buf[2 + j])
+
+// round trip: the k bytes written by Put_k decode to n under Get_k's formula
+//@ lemma! putget2(n int): 0 <= n && n < 65536 ==> byteAt(n, 0) + 256 * byteAt(n, 1) == n
+//@ lemma! putget3(n int): 0 <= n && n < 16777216 ==> byteAt(n, 0) + 256 * byteAt(n, 1) + 65536 * byteAt(n, 2) == n
+//@ lemma! putget4(n int): 0 <= n && n < 4294967296 ==> byteAt(n, 0) + 256 * byteAt(n, 1) + 65536 * byteAt(n, 2) + 16777216 * byteAt(n, 3) == n
+//@ lemma! putget5(n int): 0 <= n && n < 1099511627776 ==> byteAt(n, 0) + 256 * byteAt(n, 1) + 65536 * byteAt(n, 2) + 16777216 * byteAt(n, 3) + 4294967296 * byteAt(n, 4) == n
+
+// ---- small offsets (5 byte little endian) -----------------------------------------
+//@ func WriteSmallOffset(buf, offset)
+//@   requires len(buf) >= 5
+//@   modifies elems(buf)
+//@   ensures! bytes: buf[0] == byteAt(offset, 0) && buf[1] == byteAt(offset, 1) && buf[2] == byteAt(offset, 2) && buf[3] == byteAt(offset, 3) && buf[4] == byteAt(offset, 4)
+//@   ensures! rest: forall j :: 5 <= j && j < len(buf) ==> buf[j] == old(buf[j])
+
+//@ func AppendSmallOffset(buf, offset) (r)
+//@   modifies elems(buf)
+//@   ensures! len(r) == len(buf) + 5 && (ref(r) == ref(buf) || fresh(r)) && forall j :: 0 <= j && j < len(buf) ==> r[j] == old(buf[j])
+//@   ensures! bytes: r[len(buf)] == byteAt(offset, 0) && r[len(buf) + 1] == byteAt(offset, 1) && r[len(buf) + 2] == byteAt(offset, 2) && r[len(buf) + 3] == byteAt(offset, 3) && r[len(buf) + 4] == byteAt(offset, 4)
+
+//@ func ReadSmallOffset(buf) (r)
+//@   requires len(buf) >= 5
+//@   ensures! r == buf[0] + 256 * buf[1] + 65536 * buf[2] + 16777216 * buf[3] + 4294967296 * buf[4]
+
+//@ lemma! smalloffset_roundtrip(n uint64): n < 1099511627776 ==> byteAt(n, 0) + 256 * byteAt(n, 1) + 65536 * byteAt(n, 2) + 16777216 * byteAt(n, 3) + 4294967296 * byteAt(n, 4) == n
